@@ -1541,6 +1541,7 @@ func (e *Exec) callBuiltin(caller *Frame, fn *ssa.Builtin, args []Value) Value {
 			if x == nil {
 				return e.i64(0)
 			}
+			e.chanPeek(x)
 			return e.i64(int64(len(x.q)))
 		case *Backing:
 			return e.i64(int64(len(x.cells)))
